@@ -5,6 +5,7 @@ mod tagcases;
 mod cmdcases;
 mod conncases;
 mod framecases;
+mod loopcases;
 
 use std::io::{BufRead, Write};
 
@@ -15,7 +16,9 @@ fn main() {
         std::process::exit(2);
     }
     // panics are outcomes, not crashes: keep the default hook quiet
-    std::panic::set_hook(Box::new(|_| {}));
+    std::panic::set_hook(Box::new(|_| {
+        util::PANIC_COUNT.fetch_add(1, std::sync::atomic::Ordering::SeqCst);
+    }));
     let f = std::fs::File::open(&args[1]).expect("open case file");
     let out = std::io::stdout();
     let mut out = std::io::BufWriter::new(out.lock());
@@ -36,6 +39,7 @@ fn dispatch(toks: &[&str]) -> String {
         "cmd_build" | "cmd_args" | "cmd_list" | "escape" => cmdcases::run(toks),
         "recv" | "conn" => conncases::run(toks),
         "frame" | "resp" => framecases::run(toks),
+        "loop" => loopcases::run(toks),
         other => format!("unknown-kind {}", other),
     }
 }
